@@ -440,8 +440,9 @@ def run(ctx):
     cov = core.LineCoverage()
     hist = {"ops": {}, "errors": 0}
     with cov:
-        for c in cases:
-            data = data_rng.normal(size=(c["n"], 2))
+        for ci_, c in enumerate(cases):
+            # (one, two or three columns: with a single column NumPy's covariance of a cluster is a 0-d array, still an array)
+            data = data_rng.normal(size=(c["n"], [2, 1, 3, 2][ci_ % 4]))
             h = -1
             with ctx.guard("state operations", {"case": c}):
                 sigs, handles, err = exec_ops(c["K"], c["m"], c["lam_arr"], c["beta_arr"], c["n"], c["ops"], data)
